@@ -262,6 +262,8 @@ def build(ck):
         if var is None:
             return
         st = C19.start_state(S, var, 1)          # some other configuration is active when mv runs
+        # ... with options of its own (a dict like any configured one, so that code reading it by mistake still executes)
+        st['cur'].fields['solver_options'] = {'active_only': z3.Const('active_only', CX.AnyS)}
         pre_case = S.choose(3)
         precond = z3.Const('preconditioner', CX.AnyS)
         opts = [{}, {'preconditioner': precond}, {'restart': z3.Const('restart', CX.AnyS)}][pre_case]
